@@ -95,7 +95,11 @@ func runScenario(sc scenario, judge bool) outcome {
 			}(g)
 		}
 	}
+	var tOffer time.Duration
 	busy := func(w time.Duration, ctl uint16) time.Duration {
+		if tOffer == 0 {
+			tOffer = s.Now() // the indication is taken in somewhere between this instant and the return of the delivery
+		}
 		if _, expired := s.DeliverTimeout(&knxnet.RoutingBusy{WaitTime: w, Control: ctl}, 10*time.Second); expired && judge {
 			r.Violate("receive-loop.stuck", attrs, map[string]interface{}{"scenario": sig}, "[%s] the receive loop did not take a busy indication within 10 s", sig)
 		}
@@ -220,17 +224,26 @@ func runScenario(sc scenario, judge bool) outcome {
 		w = 50 * time.Millisecond
 	}
 	if w > 0 {
+		// the silence is searched from the moment the indication was offered (the
+		// harness may read its clock late after the hand-over); stragglers are
+		// counted from the moment the hand-over is known to have happened
 		var after []time.Duration
 		for _, t := range tx {
-			if t > tIn {
+			if t > tOffer {
 				after = append(after, t)
 			}
 		}
-		prev := tIn
+		prev := tOffer
 		m := -1
 		for i, t := range after {
 			if t-prev+50*time.Microsecond >= w {
-				m = i
+				m = 0
+				for _, u := range after[:i] {
+					if u > tIn {
+						m++
+					}
+				}
+				after = after[i-m:] // so that after[m] is the transmission that ends the silence
 				break
 			}
 			prev = t
